@@ -1,5 +1,5 @@
 """Property -> rules table.  Rules are functions (ctx, repo)."""
-from .rules import ndim, iface, wrappers, rng, mech, errmodels, popmodels, switch, copies, cursors, reduced, layout, noise, filters, caches, problems, dosing, sbml
+from .rules import ndim, iface, wrappers, rng, mech, errmodels, popmodels, switch, copies, cursors, reduced, layout, noise, filters, caches, problems, dosing, sbml, predictive
 
 PROPS = {}
 
@@ -318,6 +318,27 @@ prop('C14',
                  'fresh protocol per individual), and that every '
                  'individual\'s regimen is set on the shared model before '
                  'its likelihood copies it.')
+
+prop('C15',
+     [predictive.r15_2, predictive.r15_3, predictive.r15_4, layout.r02_3,
+      CUR_PRED, rng.r16_1, rng.r16_2, rng.r16_5],
+     undecided=['distributions of the samples', 'posterior row selection '
+                'semantics inside xarray', 'weights of the averaged model'],
+     assumptions=COMMON_ASSUME + ['numpy broadcasting / flatten are '
+                                  'C-ordered'],
+     technique='def-use versioning of the time vector between simulation '
+               'and labels, symbolic layout of the label columns, random '
+               'index bound vs. row count, eta/psi qualifiers, cursor '
+               'discipline of the ID shift, RNG provenance',
+     explanation='Decides that every sample method labels its values with '
+                 'the sorted time vector it simulated, that the '
+                 'population-predictive labels are laid out like the '
+                 'flattened measurements, that a posterior draw ranges over '
+                 'all (chain, draw) rows, that individuals are transformed '
+                 'eta -> psi before simulation, that sample IDs of the '
+                 'averaged model are shifted by a running count, and that '
+                 'the population model knows how many individuals it '
+                 'transforms.')
 
 prop('C16',
      [rng.r16_1, rng.r16_2, rng.r16_3, rng.r16_4, rng.r16_5, layout.r16_6],
